@@ -17,6 +17,7 @@ import json
 import multiprocessing
 import os
 import random
+import signal
 import sys
 
 HARNESS = os.path.dirname(os.path.dirname(os.path.abspath(__file__)))
@@ -59,7 +60,8 @@ EXPLANATION = (
     'divisor on the tiny domains inside the oracle self check); invert(a,b) u satisfies a u = 1 mod b, '
     'deg u < deg b, raises iff no inverse; powmod equals n-fold multiplication reduced mod b after each step '
     '(negative n through the inverse); < is degree-then-top-down lexicographic; int/list/str round trips; '
-    'evaluation equals sum c_i x^i mod p; ring laws on triples evaluated with the real operators only.')
+    'evaluation equals sum c_i x^i mod p; ring laws on triples evaluated with the real operators only; the SageMath-style '
+    'helpers reverse/truncate/deriv (no Lean model: oracle only) equal their definitions in both representations.')
 ASSUMPTIONS = [
     'the correspondence is a finite sample (exhaustive on the listed small domains, seeded random beyond)',
     'powmod with the ZERO polynomial as modulus is compared with the model but not judged by the oracle '
@@ -73,6 +75,7 @@ TRUSTED = ['harness/gfpx_oracle.py (independent schoolbook reference)',
 
 FINDING_POWMOD = 'C23-powmod-unreduced'
 FINDING_EVAL = 'C23-binary-eval-even'
+FINDING_REVERSE = 'C23-binary-reverse-unpadded'
 P61 = 2 ** 61 - 1
 
 
@@ -553,6 +556,48 @@ defop('bool', 'P', 'B', lambda D, args, obs: _is(obs, bool(args[0])), [
 ])
 
 
+def oracle_reverse(p, a, d):
+    """x^d * a_d(1/x) where a_d = a truncated / zero-padded to exactly d+1 coefficients (d None: d = deg a)"""
+    if d is None:
+        d = O.deg(a)
+    t = (list(a) + [0] * (d + 1))[:d + 1]
+    return O.norm(p, t[::-1])
+
+
+def chk_reverse(D, args, obs):
+    p, (a, d) = D.p, args
+    exp = oracle_reverse(p, a, d)
+    if obs != exp and D.bin and d is not None and d < O.deg(a) and obs == O.norm(p, O.norm(p, a[:d + 1])[::-1]):
+        return FINDING_REVERSE, exp       # truncated part not padded back to d+1 coefficients before reversing
+    return _is(obs, exp)
+
+
+def oracle_deriv(p, a, m):
+    """m-th formal derivative: sum_i i(i-1)...(i-m+1) a_i x^(i-m)"""
+    out = []
+    for i in range(m, len(a)):
+        f = 1
+        for j in range(m):
+            f *= i - j
+        out.append(f * a[i])
+    return O.norm(p, out)
+
+
+defop('reverse', 'PO', 'P', chk_reverse, [
+    V('a.reverse(d)', lambda D, a, d: a.reverse(d)),
+    V('_reverse', lambda D, a, d: D.w(D.cls._reverse(a.value, d=d))),
+])
+defop('truncate', 'PN', 'P', lambda D, args, obs: _is(obs, O.norm(D.p, args[0][:args[1]])), [
+    V('a.truncate(n)', lambda D, a, n: a.truncate(n)),
+    V('_truncate', lambda D, a, n: D.w(D.cls._truncate(a.value, n))),
+    V('a%x^n', lambda D, a, n: a % (D.cls(1) << n)),
+])
+defop('deriv', 'PN', 'P', lambda D, args, obs: _is(obs, oracle_deriv(D.p, *args)), [
+    V('a.deriv(m)', lambda D, a, m: a.deriv(m)),
+    V('_deriv', lambda D, a, m: D.w(D.cls._deriv(a.value, m=m))),
+])
+
+
 def _law(name, fn):
     return V(name, lambda D, a, b, c: bool(fn(D, a, b, c)))
 
@@ -583,7 +628,41 @@ defop('law', 'PPP', 'B', chk_true, [
 # ---------------------------------------------------------------------------------------------
 # evaluating one call on the real code
 # ---------------------------------------------------------------------------------------------
+class RealCodeTimeout(BaseException):
+    """the real code used more than CALL_TIMEOUT seconds of CPU time in one call (treated as a wrong result, not as
+    infrastructure).  CPU time of this process (ITIMER_VIRTUAL), not wall time: immune to a loaded machine."""
+
+
+CALL_TIMEOUT = float(os.environ.get('VERIF_CALL_TIMEOUT', '10'))
+TIMEOUT = 'raises:Timeout(no result within %gs of CPU time)' % CALL_TIMEOUT
+
+
+def _on_alarm(signum, frame):
+    raise RealCodeTimeout()
+
+
+try:
+    signal.signal(signal.SIGVTALRM, _on_alarm)
+    _HAVE_ALARM = True
+except (ValueError, AttributeError):      # not in the main thread / no SIGALRM
+    _HAVE_ALARM = False
+
+
 def real_call(D, op, fn, args):
+    """one call of the real code -> canonical result; exceptions -> 'raises:<class>'; watchdog: a call that does not
+    return within CALL_TIMEOUT seconds of CPU time yields 'raises:Timeout(...)' (legitimate calls take milliseconds)"""
+    if _HAVE_ALARM:
+        signal.setitimer(signal.ITIMER_VIRTUAL, CALL_TIMEOUT)
+    try:
+        return _real_call(D, op, fn, args)
+    except RealCodeTimeout:
+        return TIMEOUT
+    finally:
+        if _HAVE_ALARM:
+            signal.setitimer(signal.ITIMER_VIRTUAL, 0)
+
+
+def _real_call(D, op, fn, args):
     try:
         real = []
         for k, a in zip(op.kinds, args):
@@ -605,7 +684,7 @@ def enc_args(args):
 def dec_args(op, args):
     out = []
     for k, a in zip(op.kinds, args):
-        if k in ('I', 'N'):
+        if k in ('I', 'N') or (k == 'O' and a is not None):
             out.append(int(a))
         elif k == 'S':
             out.append(str(a))
@@ -626,6 +705,7 @@ class Job:
         self.viols, self.counts, self.keys = [], {}, []
         self.findings = {}
         self.samples = []
+        self.dead = set()          # operations that timed out once in this worker: not called again
 
     def count(self, k, n=1):
         self.counts[k] = self.counts.get(k, 0) + n
@@ -693,7 +773,12 @@ def do_call(J, D, opname, vi, args):
     if pred is not None and not pred(args):
         return None
     func = f'{opname}:{label}'
+    if opname in J.dead:
+        J.count('skipped-after-timeout:' + opname)
+        return None
     obs = real_call(D, op, fn, args)
+    if obs == TIMEOUT:
+        J.dead.add(opname)
     if op.drv and not J.nodriver:
         emit(J, D, op, args, obs, func)
     status, exp = op.check(D, args, obs)
@@ -780,6 +865,12 @@ def unary_ops(J, D, a, k, nvar, shifts, xs):
         do_op(J, D, 'eval', (a, x), k, nvar)
     for i in range(len(a) + 2):
         do_op(J, D, 'getitem', (a, i), k, nvar)
+    for d in (None, -1, 0, 1, 2, 3, 5) if len(xs) > 1 else (None, (k % 9) - 1):
+        do_op(J, D, 'reverse', (a, d), k, nvar)
+    for n in range(0, 6) if len(xs) > 1 else (k % 7,):
+        do_op(J, D, 'truncate', (a, n), k, nvar)
+    for m in range(0, 4) if len(xs) > 1 else (k % 3,):
+        do_op(J, D, 'deriv', (a, m), k, nvar)
 
 
 def job_unary(J, D, js):
@@ -1055,6 +1146,7 @@ def run_jobs(ctx, jobs, modname, max_violations=3):
                 findings[key] = (msg, rep)
         ctx.count('driver-lines', r['lines'])
     ordinary.sort(key=lambda v: (_size(v[1]), json.dumps(common.json_safe(v[1]), sort_keys=True)))
+    ordinary = [v for k, v in enumerate(ordinary) if k == 0 or v[1] != ordinary[k - 1][1]]      # drop duplicates
     for msg, rep in ordinary[:max_violations]:      # genuine new violations first: check.py writes the first one
         ctx.violation(msg, rep)
     if len(ordinary) > max_violations:
@@ -1127,7 +1219,7 @@ def build_jobs(ctx, nodriver=False):
         nops = None if T or p == 5 else 6          # quick, p = 7: 6 of the 9 pair operations per pair, rotating
         for lo, hi in _chunks(0, n, max(1, n * n // 8000)):
             add_pairs(str(p), ('grid', lo, hi, n), (hi - lo) * n, 1, nops)
-        cnt = ctx.scale(6000, 400000 if p == 7 else 40000)
+        cnt = ctx.scale(6000, 200000 if p == 7 else 40000)
         sample = _sample_pairs(ctx.subrng('pairs3', p), p, cnt)
         for lo, hi in _chunks(0, cnt, max(1, cnt // 6000)):
             add_pairs(str(p), ('list', sample[lo:hi]), hi - lo, 1)
